@@ -87,6 +87,15 @@ FLAVOURS[13] = ("This round, the change is an otherwise reasonable small commit 
                 "translation. Pick one that fits the code you are changing; it must need something specific to manifest and differ "
                 "in mechanism from the earlier changes listed above.")
 
+FLAVOURS[14] = ("This round, write a HARDENING pull request (5-40 changed lines, 'commit_message' in meta.json): input validation, "
+                "defensive checks, friendlier diagnostics, logging / verbose output, resource limits, 'fail early' guards, try/except "
+                "blocks around risky code, type checks, normalising input before it is processed (stripping, case folding, encoding), "
+                "clamping values into a range, replacing a crash by a default. The hardening does what its message says, but it is a "
+                "little too strict, too lenient or too helpful: it refuses or alters something valid that lies just inside the "
+                "boundary it draws, swallows an error that should have surfaced, writes a diagnostic to a stream that carries data, "
+                "or 'repairs' an input in a way that changes its meaning. The break of the property must come from that, must need "
+                "something specific to manifest, and must differ in mechanism from the earlier changes listed above.")
+
 
 def main():
     rnd, outdir = int(sys.argv[1]), sys.argv[2]
